@@ -107,6 +107,7 @@ fn main() {
         "C12" => checks::c12::run(&ctx),
         "C13" => checks::c13::run(&ctx),
         "C15" => checks::c15::run(&ctx),
+        "C16" => checks::c16::run(&ctx),
         _ => {
             eprintln!("unknown property {prop}");
             2
